@@ -13,11 +13,22 @@ THEOREMS = [
     "GoaktVerif.C28.C28_own_reply",
     "GoaktVerif.C28.C28_idle_clean",
     "GoaktVerif.C28.C28_holds",
+    "GoaktVerif.C28.pinv_run",
+    "GoaktVerif.C28.C28_payload_exclusive",
 ]
+# the payload frame of a request is given back exactly once (the deferred Put): Model.C28.Payload mirrors it
+FACTS = [{
+    "file": "internal/remoteclient/client.go",
+    "suffixes": "payloadPool.Put,payloadPool.Get",
+    "expect": {
+        "client.RemoteAsk": ["payloadPool.Put"],
+        "client.RemoteTell": ["payloadPool.Put"],
+    },
+}]
 INPKG = ["internal/net/zz_verif_c28.go"]
 TIMEOUT = 900
 MANIFEST = {
-    "level_text": "Kernel-checked theorem over a step-by-step model of the inet.Client connection pool (Get/Put/Discard/Close, LIFO idle stack, idle-timeout eviction, maxIdle bound) and of SendProto / SendBatchProto with every early exit, for ALL schedules of any number of concurrent calls interleaved with the server's per-connection sequential handling, failures or timeouts at any step, cancellation between batch frames, swallowed requests and client Close: every pooled connection is clean (balance 0, no deadline; C28_idle_clean) and a call that returns success returns exactly the responses to its own requests in request order (C28_own_reply, C28_holds). Tied to the code by running the real inet.Client (SendProto, SendBatchProto) and the real remoteclient.Client (RemoteAsk, RemoteBatchAsk) with concurrent callers against a real in-process ProtoServer on loop-back TCP whose handler parks each request on a controller gate (scripted reply / error / no reply / caller deadline first), comparing per-call results, the connection each call used (dial order), pool size and dial count with the model.",
+    "level_text": "Kernel-checked theorem over a step-by-step model of the inet.Client connection pool (Get/Put/Discard/Close, LIFO idle stack, idle-timeout eviction, maxIdle bound) and of SendProto / SendBatchProto with every early exit, for ALL schedules of any number of concurrent calls interleaved with the server's per-connection sequential handling, failures or timeouts at any step, cancellation between batch frames, swallowed requests and client Close: every pooled connection is clean (balance 0, no deadline; C28_idle_clean) and a call that returns success returns exactly the responses to its own requests in request order (C28_own_reply, C28_holds). The request a call writes is its own because payload buffers are exclusive (Model.C28.Payload, C28_payload_exclusive; single-Put FACT on client.RemoteAsk / RemoteTell; `storm` cases: error asks followed by truly concurrent RemoteAsk calls with distinct payloads, any wrong reply fails). Tied to the code by running the real inet.Client (SendProto, SendBatchProto) and the real remoteclient.Client (RemoteAsk, RemoteBatchAsk) with concurrent callers against a real in-process ProtoServer on loop-back TCP whose handler parks each request on a controller gate (scripted reply / error / no reply / caller deadline first), comparing per-call results, the connection each call used (dial order), pool size and dial count with the model.",
     "level_note": "partial: TCP (in-order byte streams per direction) and the server contract (ProtoServer.handleConn handles the frames of one connection sequentially and writes at most one response per request) are parameters of the model; the latter is exercised by the tie (the real ProtoServer is the peer) but not proved. The tie is a differential on controller-serialised schedules: calls are concurrent (several in flight on different connections, finishing in any order) but the instants at which they touch the pool are ordered by the controller; SetDeadline/marshal failures are in the model only; cancellation between two reads / two writes of a batch is driven (ops b..c, k, b..x). The actor-side remoteAskHandler building the reply list in request order is exercised by C29's harness, not here (here the peer echoes).",
     "technique": "Lean 4 proof (inductive invariant over a small-step model of pool + exchanges) + model/implementation differential on gate-controlled concurrent runs over loop-back TCP",
 }
@@ -140,14 +151,22 @@ def _structured():
     return out
 
 
+def _storms(tier):
+    # real concurrency, no control: error asks first (each would leave a doubly released payload buffer behind if
+    # the release discipline were broken), then concurrent asks with distinct payloads
+    if tier == "quick":
+        return ["storm 1 32 8 20 1", "storm 1 0 8 20 1", "storm 1 32 8 20 1"]
+    return ["storm 1 32 8 20 1", "storm 1 0 16 50 1", "storm 2 32 16 25 8", "storm 1 64 16 10 1", "storm 4 8 8 25 32"]
+
+
 def gen_cases(rng, tier):
     n = 90 if tier == "quick" else 1500
-    return _structured() + [_gen_one(rng, allow_timeouts=(i % 3 == 0)) for i in range(n)]
+    return _storms(tier) + _structured() + [_gen_one(rng, allow_timeouts=(i % 3 == 0)) for i in range(n)]
 
 
 def search_cases(rng, tier):
     n = 150 if tier == "quick" else 2500
-    return _structured() + [_gen_one(rng, allow_timeouts=(i % 2 == 0)) for i in range(n)]
+    return _storms("thorough") + _structured() + [_gen_one(rng, allow_timeouts=(i % 2 == 0)) for i in range(n)]
 
 
 def compare(case, impl, model):
@@ -175,6 +194,8 @@ def oracle(case, impl, judge):
         return None
     if judge is not None:
         return None if judge.startswith("ok") else judge
+    if case.startswith("storm"):
+        return None if impl == "wrong=0" else "bad %s: that many RemoteAsk calls returned, without error, a reply that is not the answer to their own request" % impl
     sz = _sizes(case)
     for tok in impl.split():
         if "@" not in tok:
@@ -197,10 +218,14 @@ def classify(case, impl, why):
 
 
 def is_trivial(case, impl):
+    if case.startswith("storm"):
+        return not impl.startswith("wrong=")
     return (not impl) or impl.startswith(("bad-case", "STALL", "CRASH", "panic")) or "=ok:" not in impl
 
 
 def tag(case, impl):
+    if case.startswith("storm"):
+        return "storm"
     f = case.split()
     ops = f[4:]
     t = [f[1], "idle%s" % f[2]]
@@ -218,6 +243,8 @@ def tag(case, impl):
 
 
 def shrink(case):
+    if case.startswith("storm"):
+        return
     f = case.split()
     head, ops = f[:4], f[4:]
     for i in range(len(ops)):
